@@ -63,7 +63,8 @@ FailedTok(r) ==
          [] c = "C01_solve"    -> r.solve <= (IF r.implicit = 1 THEN TolSolver ELSE TolRoundoff)
          [] c = "C03_solve"    -> r.unifsolve <= (IF r.implicit = 1 THEN TolSolver ELSE TolRoundoff)
          [] c = "C13_mirror"   -> r.mirror <= TolRoundoff     \* implicit runs are pre-scaled by the harness (solver clause)
-         [] c = "C13_scaling"  -> r.scaling = 0               \* bitwise for power-of-two unit changes
+         [] c = "C13_scaling"  -> r.scaling = 0 /\ r.scalero <= TolRoundoff   \* bitwise for power-of-two unit changes (smooth
+                                                                            \* limiters: up to their regularisation constants)
          [] c = "C14_shift"    -> r.shift <= TolRoundoff}
 
 FailedShift(r) ==
